@@ -92,7 +92,7 @@ pub fn compile_json(
 
     first_pass(&shape, &mut scope);
     let content = format!(
-        "//! Generated `JsonShape` file.\nuse serde;\n\n{}",
+        "// Generated `JsonShape` file.\nuse serde;\n\n{}",
         scope.to_string()
     );
     std::fs::write(target, content)?;
